@@ -119,8 +119,12 @@ func (v *CV) coq() string {
 
 // Case: a statically typed chunk list.
 type Case struct {
-	Kind   string `json:"kind"` // "generic" | "msg" | "msglist"
-	Chunks []*CV  `json:"chunks,omitempty"`
+	Kind   string   `json:"kind"` // "generic" | "msg" | "msglist"
+	Chunks []*CV    `json:"chunks,omitempty"`
+	API    int      `json:"api,omitempty"`   // msg: which entry point is sent to the model (see msg.go)
+	Chain  bool     `json:"chain,omitempty"` // msg: also run through a compose chain
+	Msgs   []*Msg   `json:"msgs,omitempty"`
+	Lists  [][]*Msg `json:"lists,omitempty"`
 }
 
 type Obs struct {
@@ -317,7 +321,7 @@ type engine struct{}
 
 func (engine) ID() string { return "C14" }
 func (engine) CoqHeader() string {
-	return "From Eino Require Import Base.Util Model.Concat Corr.C14.\n"
+	return "From Eino Require Import Base.Util Model.Concat Model.ConcatMsg Corr.C14.\n"
 }
 func (engine) CoqCaseType() string { return "ccase" }
 
